@@ -92,7 +92,9 @@ def run(ctx):
     res.rule = ("every ordered pair of register operands (each produced by the real parser; lower, "
                 "upper and mixed case; as plain operand, memory base and memory index) is passed "
                 "to is_reg_dependend_of and compared with the architectural partition table; a "
-                "pair is non-trivial if its two names differ")
+                "pair is non-trivial if its two names differ; (b) at graph level: a producer "
+                "writing two registers and a consumer reading one, all triples over ~20 names per "
+                "ISA, edge iff overlap")
     for isa, mk in (("x86", _x86_operands), ("aarch64", _a64_operands)):
         _OPS[isa] = mk()
     for isa in ("x86", "aarch64"):
@@ -122,6 +124,7 @@ def run(ctx):
         res.nontrivial += n_ops * (n_ops - 1)
         res.add_sample({"isa": isa, "operands": n_ops,
                         "first": [o[0] + "/" + o[2] for o in _OPS[isa][:5]]})
+    graph_part(ctx, res)
     res.evaluations = res.transitions
     res.bounds = {"x86_names": len(regs.X86), "aarch64_names": len(regs.A64),
                   "case_variants": "lower, UPPER, Mixed (x86); lower, UPPER (AArch64: the grammar "
@@ -136,6 +139,18 @@ def run(ctx):
 def replay(ctx, payload):
     r = payload["replay"]
     isa = r["isa"]
+    if r.get("part") == "graph":
+        from mc import dgfam
+        _GFAM[isa] = dgfam.Family(isa, ctx.sub("c12graph"), "c12" + isa)
+        saved = GRAPH_NAMES[isa]
+        GRAPH_NAMES[isa] = [r["c"]]
+        try:
+            _, (n, bad) = _graph_case((isa, r["a"], r["b"]))
+        finally:
+            GRAPH_NAMES[isa] = saved
+        for b in bad:
+            print(b)
+        return 1 if bad else 0
     ops = (_x86_operands if isa == "x86" else _a64_operands)()
     p = drive.get_parser(isa)
     a = [o for o in ops if o[0] == r["a"] and o[2] == r["pos_a"]][0]
@@ -143,3 +158,82 @@ def replay(ctx, payload):
     got = bool(p.is_reg_dependend_of(a[3], b[3]))
     print("is_reg_dependend_of(%s, %s) = %s ; expected %s" % (r["a"], r["b"], got, r["expected"]))
     return 0 if got == r["expected"] else 1
+
+
+# ------------------------------------------------------------------------------------------
+# part (b): the same relation where it is used - a producer writing two registers, a consumer
+# reading one; the dependency graph must have the edge iff the read register overlaps one of
+# the written ones (the graph builder keeps its own lists of written registers)
+
+GRAPH_NAMES = {
+    "x86": ["rax", "eax", "ax", "al", "ah", "rbx", "ebx", "r8", "r8d", "r8w", "r8b", "r9",
+            "xmm1", "ymm1", "zmm1", "xmm2", "mm1", "mm2", "R8D", "EAX"],
+    "aarch64": ["x1", "w1", "x2", "w2", "b1", "h1", "s1", "d1", "q1", "v1.2d", "z1.d", "d2",
+                "q2", "v2.4s", "p1", "p2", "x30", "X1", "Q1"],
+}
+_GFAM = {}
+
+
+def _graph_case(item):
+    from mc import dgfam
+    isa, a, b = item
+    fam = _GFAM[isa]
+    other = "r15" if isa == "x86" else "x15"
+    bad = []
+    n = 0
+    for c in GRAPH_NAMES[isa]:
+        texts = ["opdd %s, %s" % (dgfam.rtext(isa, a), dgfam.rtext(isa, b)),
+                 "opsd %s, %s" % (dgfam.rtext(isa, c), dgfam.rtext(isa, other))]
+        try:
+            mm, sem = fam.load()
+            parser, kernel = dgfam.parsed_kernel(isa, texts)
+            sem.add_semantics(kernel)
+            g = drive.KernelDG.__new__(drive.KernelDG)
+            g.timed_out = False
+            g.kernel, g.parser, g.model, g.arch_sem = kernel, parser, mm, sem
+            g.dg = g.create_DG(kernel, False)
+            got = g.dg.has_edge(kernel[0].line_number, kernel[1].line_number)
+        except Exception as e:
+            bad.append((c, None, "exception %s: %s" % (type(e).__name__, str(e)[:120])))
+            continue
+        n += 1
+        ca = regs.class_of(isa, a.split(".")[0])
+        cb = regs.class_of(isa, b.split(".")[0])
+        cc = regs.class_of(isa, c.split(".")[0])
+        exp = cc == ca or cc == cb
+        if got != exp:
+            bad.append((c, exp, "edge present=%s" % got))
+    return item, (n, bad)
+
+
+def graph_part(ctx, res):
+    from mc import dgfam
+    d = ctx.sub("c12graph")
+    items = []
+    for isa in ("x86", "aarch64"):
+        _GFAM[isa] = dgfam.Family(isa, d, "c12" + isa)
+        _GFAM[isa].load()
+        other = "r15" if isa == "x86" else "x15"
+        texts = set()
+        for a in GRAPH_NAMES[isa]:
+            for b in GRAPH_NAMES[isa]:
+                texts.add("opdd %s, %s" % (dgfam.rtext(isa, a), dgfam.rtext(isa, b)))
+            texts.add("opsd %s, %s" % (dgfam.rtext(isa, a), dgfam.rtext(isa, other)))
+        dgfam.warm_parse_cache(isa, sorted(texts))
+        items += [(isa, a, b) for a in GRAPH_NAMES[isa] for b in GRAPH_NAMES[isa]]
+    out = core.pmap(_graph_case, core.rotate(items, ctx.seed))
+    total = 0
+    for (isa, a, b), (n, bad) in out:
+        total += n
+        res.states += n
+        res.traces += n
+        res.transitions += n
+        res.nontrivial += n
+        for c, exp, what in bad:
+            res.violations.append(core.Violation(
+                {"part": "graph", "isa": isa, "kind": "exception" if exp is None else
+                 ("missing" if exp else "spurious")},
+                "%s: producer writes %s and %s, consumer reads %s: %s, architectural overlap = %s"
+                % (isa, a, b, c, what, exp),
+                {"part": "graph", "isa": isa, "a": a, "b": b, "c": c, "what": what}))
+    res.extra["graph_level_kernels"] = total
